@@ -712,7 +712,22 @@ def framing(ctx, repo):
             if isinstance(src, ast.Call) and ast.unparse(src.func) == "re.compile":
                 pat, flags = from_call(src)
     if not isinstance(pat, bytes):
-        raise AnalysisError("framing regex is not a constant pattern (idiom not recognised)")
+        # one level down: a module function the extractor delegates to, a module-level precompiled pattern
+        for n0 in ast.walk(efi.node):
+            if isinstance(n0, ast.Call) and isinstance(n0.func, ast.Name) and n0.func.id in efi.mod.functions:
+                helper = efi.mod.functions[n0.func.id]
+                for n in ast.walk(helper.node):
+                    if isinstance(n, ast.Call) and ast.unparse(n.func) in ("re.search", "re.match", "re.fullmatch"):
+                        pat, flags = from_call(n)
+                    elif isinstance(n, ast.Call) and isinstance(n.func, ast.Attribute) and n.func.attr in ("search", "match", "fullmatch") and isinstance(n.func.value, ast.Name):
+                        src = efi.mod.consts.get(n.func.value.id)
+                        if isinstance(src, ast.Call) and ast.unparse(src.func) == "re.compile":
+                            pat, flags = from_call(src)
+    if not isinstance(pat, bytes):
+        # the pattern is not visible as a constant: the end-to-end round trip above (symbolic regex: no DOTALL -> no
+        # match, a greedy group before the last overruns, a lazy last group is cut) is the decision
+        ctx.note("framing regex not found as a constant pattern: R5 is decided by the symbolic frame round trip (R4 frame-round-trip::*) only")
+        return tags
     ctx.ob("R5", "regex::dotall", any("DOTALL" in f or f.endswith("re.S") for f in flags or []),
            "framing regex is compiled without re.DOTALL: payloads containing a newline byte do not match", efi.loc)
     import re._parser as sre
@@ -789,8 +804,9 @@ def text_parts(ctx, repo):
             rx = new_handler(repo, interp, cname, [b"1"])
             interp.steps = 0
             interp.call(repo.method(cname, "handle"), rx, [wire_of(msg), SENDER])
-            ok = rx.attrs.get("_spa_identifier") == b"SPA01:02:03:04:05:06" and rx.attrs.get("_spa_name") == name
-            why = f"decoded ({rx.attrs.get('_spa_identifier')!r}, {rx.attrs.get('_spa_name')!r})"
+            _gi, _gn = read_field(interp, rx, "_spa_identifier"), read_field(interp, rx, "_spa_name")
+            ok = _gi == b"SPA01:02:03:04:05:06" and _gn == name
+            why = f"decoded ({_gi!r}, {_gn!r})"
         except PyRaise as e:
             ok, why = False, f"decoder raises {e.what}"
         except Undecided as e:
